@@ -88,7 +88,7 @@ func buildScopeProgramX(hist0 []scEvent, xName string) []*model.N {
 			e.Name = selfName()
 		}
 		switch e.Op {
-		case "open", "openif", "openwh", "openfor":
+		case "open", "openif", "openwh", "openfor", "openforstep":
 			fnStack = append(fnStack, "")
 		case "openfun":
 			fnStack = append(fnStack, "h"+id)
@@ -135,6 +135,14 @@ func buildScopeProgramX(hist0 []scEvent, xName string) []*model.N {
 			stack = append(stack, &fr{close: func(b []*model.N) []*model.N {
 				return []*model.N{model.Var(flag, model.Bool(true)),
 					model.For(model.Var(name, K), model.Id(flag), model.Asg(flag, model.Bool(false)), model.Block(b...))}
+			}})
+		case "openforstep": // a for loop whose step clause reads and assigns the name (the body resets the flag)
+			flag := "s" + id
+			name := e.Name
+			stack = append(stack, &fr{close: func(b []*model.N) []*model.N {
+				body := append([]*model.N{model.ExprS(model.Asg(flag, model.Bool(false)))}, b...)
+				return []*model.N{model.Var(flag, model.Bool(true)),
+					model.For(nil, model.Id(flag), model.Asg(name, model.Bin("+", model.Id(name), model.Num(1))), model.Block(body...))}
 			}})
 		case "openfun":
 			fn := "h" + id
@@ -307,7 +315,7 @@ func scopeWalk(c *fw.Ctx, sig, xName string, maxLen, maxDepth int) {
 			}
 		}
 		if len(opens) < maxDepth {
-			kinds := []scEvent{{"open", ""}, {"openif", ""}, {"openwh", ""}, {"openfor", "x"}, {"openfor", "y"}, {"openfun", ""}, {"openfunp", "x"}, {"openfunp", "q"}}
+			kinds := []scEvent{{"open", ""}, {"openif", ""}, {"openwh", ""}, {"openfor", "x"}, {"openfor", "y"}, {"openfun", ""}, {"openfunp", "x"}, {"openfunp", "q"}, {"openforstep", "x"}}
 			for _, k := range kinds {
 				if builtinX && k.Op == "openfor" && k.Name == "x" {
 					continue
